@@ -422,6 +422,16 @@ def gen_mn(streams, max_n=6, min_n=2, max_card=3, max_joint=4096, connected=True
                 o = r.choice(order[hs:])
                 if o != s_ and (o, s_) not in edges and (s_, o) not in edges:
                     edges.append((s_, o))
+    elif ring and not connected and n >= 6 and r.random() < 0.6:
+        # a chordless cycle on part of the nodes, the rest isolated nodes or separate edges: a disconnected graph with fewer
+        # edges than nodes that still needs fill-in
+        m = r.randint(4, n - 2)
+        for i in range(m):
+            edges.append((order[i], order[(i + 1) % m]))
+        rest = order[m:]
+        for a, b in zip(rest[::2], rest[1::2]):
+            if r.random() < 0.5:
+                edges.append((a, b))
     elif ring:
         # a long chordless cycle (plus at most one chord): triangulation has to cascade fill-in edges
         for i in range(n):
